@@ -50,8 +50,10 @@ struct Node {
     FKind f = FValue;
     RKind r = RThrow;
     std::vector<int> inputs;
+    int nconst = 0; // whenAll / whenAny: number of plain values that follow the promises in the argument list
     bool valid = true;
 };
+inline int const_value(int node, int j) { return 7000 + 10 * node + j; }
 
 struct Obs { // what the harness observed for one node's continuations
     int f_count = 0, r_count = 0;
@@ -163,16 +165,22 @@ struct Model {
                 e.tuple = { ps.val };
                 e.tuple_known = true;
                 settle(c, MState::Fulfilled, ps.val, 0);
-            } else if (cb.got == static_cast<int>(n.inputs.size())) {
-                cb.done = true;
-                e.f = 1;
-                e.tuple = cb.vals;
-                e.tuple_known = true;
-                unsigned sum = 0;
-                for (int v : cb.vals) sum = sum * 31u + static_cast<unsigned>(v);
-                settle(c, MState::Fulfilled, static_cast<int>(sum & 0x3fffffffu), 0);
+            } else if (cb.got == static_cast<int>(n.inputs.size()) + n.nconst) {
+                complete_all(c);
             }
         }
+    }
+    void complete_all(int c)
+    {
+        Comb& cb = comb[static_cast<size_t>(c)];
+        Expect& e = ex[static_cast<size_t>(c)];
+        cb.done = true;
+        e.f = 1;
+        e.tuple = cb.vals;
+        e.tuple_known = true;
+        unsigned sum = 0;
+        for (int v : cb.vals) sum = sum * 31u + static_cast<unsigned>(v);
+        settle(c, MState::Fulfilled, static_cast<int>(sum & 0x3fffffffu), 0);
     }
     void attach(int c)
     {
@@ -184,11 +192,28 @@ struct Model {
             if (p.s != MState::Pending) deliver(n.parent, c);
         } else {
             Comb& cb = comb[static_cast<size_t>(c)];
-            cb.vals.assign(n.inputs.size(), 0);
-            cb.have.assign(n.inputs.size(), false);
+            cb.vals.assign(n.inputs.size() + static_cast<size_t>(n.nconst), 0);
+            cb.have.assign(n.inputs.size() + static_cast<size_t>(n.nconst), false);
             for (int in : n.inputs) st[static_cast<size_t>(in)].children.push_back(c);
             for (int in : n.inputs) {
                 if (st[static_cast<size_t>(in)].s != MState::Pending) deliver(in, c);
+            }
+            // the plain values come after the promises in the argument list: they count as inputs that are fulfilled already
+            for (int j = 0; j < n.nconst; ++j) {
+                if (cb.done || st[static_cast<size_t>(c)].s != MState::Pending) break;
+                size_t idx = n.inputs.size() + static_cast<size_t>(j);
+                cb.have[idx] = true;
+                cb.vals[idx] = const_value(c, j);
+                cb.got++;
+                if (n.kind == NAny) {
+                    Expect& e = ex[static_cast<size_t>(c)];
+                    cb.done = true;
+                    e.f = 1;
+                    e.tuple = { cb.vals[idx] };
+                    e.tuple_known = true;
+                    settle(c, MState::Fulfilled, cb.vals[idx], 0);
+                } else if (cb.got == static_cast<int>(n.inputs.size()) + n.nconst)
+                    complete_all(c);
             }
         }
     }
@@ -235,9 +260,12 @@ Json gen(sim::Rng& rng, int tier)
         } else {
             n["kind"] = kind == 6 ? "all" : kind == 7 ? "any" : kind == 8 ? "allrange" : (rng.chance(0.5) ? "all" : "any");
             int arity = static_cast<int>(rng.range(1, 4));
+            // some of the trailing arguments of whenAll / whenAny are plain values instead of promises
+            int nconst = (n.str("kind") != "allrange" && arity > 1 && rng.chance(0.3)) ? static_cast<int>(rng.range(1, arity - 1)) : 0;
             Json in = Json::array();
-            for (int a = 0; a < arity; ++a) in.push(usable[rng.below(usable.size())]);
+            for (int a = 0; a < arity - nconst; ++a) in.push(usable[rng.below(usable.size())]);
             n["inputs"] = in;
+            n["nconst"] = nconst;
             is_int.push_back(true);
         }
         nodes.push(n);
@@ -273,11 +301,14 @@ Json gen(sim::Rng& rng, int tier)
     }
     p["actions"] = ja;
     p["threads"] = nthreads;
+    // in half of the runs the application lets go of every promise handle (and resolver) as soon as it has no further use for it
+    p["drop_handles"] = rng.chance(0.5);
     gen_sched(rng, p, 200);
     return p;
 }
 
 // ---- execution ----------------------------------------------------------------------------------
+template <size_t N> struct TupN;
 // The value type of every promise in a program: an int that shows when it has been moved from. The values stored in a
 // promise are shared by all its continuations and by the combinators it feeds; a continuation that takes its argument by
 // value must get a copy, never the stored object itself.
@@ -300,6 +331,9 @@ struct TV {
     operator int() const { return v; }
 };
 using PInt = Async::Promise<TV>;
+template <> struct TupN<2> { using type = std::tuple<TV, TV>; };
+template <> struct TupN<3> { using type = std::tuple<TV, TV, TV>; };
+template <> struct TupN<4> { using type = std::tuple<TV, TV, TV, TV>; };
 
 struct Exec {
     std::vector<Node> nodes;
@@ -352,6 +386,28 @@ struct Exec {
     template <typename Tuple, size_t... I>
     static std::vector<int> tup(const Tuple& t, std::index_sequence<I...>) { return { std::get<I>(t)... }; }
 
+    template <size_t... P, size_t... C>
+    static auto call_all(std::vector<PInt*>& in, int k, std::index_sequence<P...>, std::index_sequence<C...>) { return Async::whenAll(*in[P]..., TV(const_value(k, static_cast<int>(C)))...); }
+    template <size_t... P, size_t... C>
+    static auto call_any(std::vector<PInt*>& in, int k, std::index_sequence<P...>, std::index_sequence<C...>) { return Async::whenAny(*in[P]..., TV(const_value(k, static_cast<int>(C)))...); }
+    template <size_t NP, size_t NC>
+    PInt make_mixed(int k, std::vector<PInt*>& in)
+    {
+        Node& n = nodes[static_cast<size_t>(k)];
+        Obs& o = obs[static_cast<size_t>(k)];
+        auto rec_r = [&o](std::exception_ptr e) { o.r_count++; o.r_exc = exc_tag(e); };
+        auto sum_of = [](const std::vector<int>& v) { unsigned s = 0; for (int x : v) s = s * 31u + static_cast<unsigned>(x); return static_cast<int>(s & 0x3fffffffu); };
+        if (n.kind == NAny) {
+            auto R = call_any(in, k, std::make_index_sequence<NP>(), std::make_index_sequence<NC>());
+            R.then([&o](const Async::Any& a) { o.f_count++; o.tuple = { a.cast<TV>() }; }, rec_r);
+            return R.then([](const Async::Any& a) { return a.cast<TV>(); }, Async::Throw);
+        }
+        using Tup = typename TupN<NP + NC>::type;
+        auto R = call_all(in, k, std::make_index_sequence<NP>(), std::make_index_sequence<NC>());
+        R.then([&o](const Tup& t) { o.f_count++; o.tuple = tup(t, std::make_index_sequence<NP + NC>()); }, rec_r);
+        return R.then([sum_of](const Tup& t) { return TV(sum_of(tup(t, std::make_index_sequence<NP + NC>()))); }, Async::Throw);
+    }
+
     PInt make_comb(int k)
     {
         Node& n = nodes[static_cast<size_t>(k)];
@@ -360,6 +416,16 @@ struct Exec {
         for (int i : n.inputs) in.push_back(prom[static_cast<size_t>(i)].get());
         auto rec_r = [&o](std::exception_ptr e) { o.r_count++; o.r_exc = exc_tag(e); };
         auto sum_of = [](const std::vector<int>& v) { unsigned s = 0; for (int x : v) s = s * 31u + static_cast<unsigned>(x); return static_cast<int>(s & 0x3fffffffu); };
+        if (n.nconst > 0 && n.kind != NAllRange) {
+            switch (in.size() * 10 + static_cast<size_t>(n.nconst)) {
+            case 11: return make_mixed<1, 1>(k, in);
+            case 12: return make_mixed<1, 2>(k, in);
+            case 13: return make_mixed<1, 3>(k, in);
+            case 21: return make_mixed<2, 1>(k, in);
+            case 22: return make_mixed<2, 2>(k, in);
+            default: return make_mixed<3, 1>(k, in);
+            }
+        }
         if (n.kind == NAny) {
             auto fin = [&](Async::Promise<Async::Any> R) {
                 R.then([&o](const Async::Any& a) { o.f_count++; o.tuple = { a.cast<TV>() }; }, rec_r);
@@ -401,6 +467,25 @@ struct Exec {
             R.then([&o](const std::tuple<TV, TV, TV, TV>& t) { o.f_count++; o.tuple = tup(t, std::make_index_sequence<4>()); }, rec_r);
             return R.then([sum_of](const std::tuple<TV, TV, TV, TV>& t) { return TV(sum_of(tup(t, std::make_index_sequence<4>()))); }, Async::Throw);
         }
+        }
+    }
+
+    bool drop_handles = false;
+    // the application lets go of what it does not need any more: the handle of a promise once everything that is going to be
+    // attached to it has been attached (resolvers are given up when they are used)
+    void release_unused()
+    {
+        if (!drop_handles) return;
+        for (size_t k = 0; k < nodes.size(); ++k) {
+            if (!prom[k] || !created[k]) continue;
+            bool needed = false;
+            for (size_t j = k + 1; j < nodes.size() && !needed; ++j) {
+                if (!nodes[j].valid || created[j]) continue;
+                if (nodes[j].kind == NThen && nodes[j].parent == static_cast<int>(k)) needed = true;
+                for (int i : nodes[j].inputs)
+                    if (i == static_cast<int>(k)) needed = true;
+            }
+            if (!needed) prom[k].reset();
         }
     }
 
@@ -447,6 +532,7 @@ struct Exec {
             d.what = "non-std exception";
         }
         log.push_back(d);
+        release_unused();
     }
 };
 
@@ -472,6 +558,10 @@ void run(const Json& plan)
         } else if (n.kind != NRoot) {
             const Json& in = j.get("inputs");
             for (size_t a = 0; a < in.size() && a < 4; ++a) n.inputs.push_back(static_cast<int>(in.at(a).as_int(-1)));
+            n.nconst = (n.kind == NAll || n.kind == NAny) ? std::max(0, std::min(3, static_cast<int>(j.num("nconst", 0)))) : 0;
+            while (n.inputs.size() + static_cast<size_t>(n.nconst) > 4 && n.nconst > 0) n.nconst--;
+            if (n.inputs.size() == 3 && n.nconst > 1) n.nconst = 1;
+            if (n.inputs.size() == 2 && n.nconst > 2) n.nconst = 2;
             n.valid = !n.inputs.empty();
             for (int x : n.inputs)
                 if (x < 0 || x >= static_cast<int>(i) || !X.nodes[static_cast<size_t>(x)].valid
@@ -479,6 +569,7 @@ void run(const Json& plan)
                     n.valid = false;
         }
     }
+    X.drop_handles = plan.flag("drop_handles");
     X.prom.resize(N);
     X.created.assign(N, false);
     X.obs.resize(N);
